@@ -89,6 +89,8 @@ class Prop(core.Prop):
                 for form in ('interpDimension', 'interpvars'):
                     yield {'part': 'apply', 'src': group['src'], 'tgt': tgt, 'form': form}
                     yield {'part': 'apply', 'src': group['src'], 'tgt': tgt, 'form': form, 'cint': True}
+                    # a variable with missing cells is interpolated first: the later, complete variables stay exact
+                    yield {'part': 'apply', 'src': group['src'], 'tgt': tgt, 'form': form, 'maskfirst': True}
             # large-magnitude coordinates (seconds since 1970, Pa): as many targets as sources, each shifted by a
             # quarter of a step - a relative change far below 1e-5
             for form in ('interpDimension', 'interpvars'):
@@ -155,10 +157,10 @@ class Prop(core.Prop):
         from PseudoNetCDF.coordutil import getinterpweights
         src, tgt, form = case['src'], case['tgt'], case['form']
         n = len(src)
-        st = [h64('a', src), h64('a', src, tgt, form, case.get('cint'), case.get('big'))]
+        st = [h64('a', src), h64('a', src, tgt, form, case.get('cint'), case.get('big'), case.get('maskfirst'))]
         vs = []
         scope = dict(form=form, nsrc=n, ntgt=len(tgt), square=bool(n == len(tgt)), cint=bool(case.get('cint')),
-                     big=bool(case.get('big')))
+                     big=bool(case.get('big')), maskfirst=bool(case.get('maskfirst')))
         sig = (form,)
         xs, nxs = np.array(src, 'd'), np.array(tgt, 'd')
         if case.get('big'):
@@ -178,6 +180,12 @@ class Prop(core.Prop):
             shp = [1, 1, 1]
             shp[ax] = n
             lin = (rng % 3 + 1.) * xs.reshape(shp) + rng % 5     # linear in the coordinate along dname
+            if case.get('maskfirst'):
+                am = f.createVariable('AM', 'd', ('t', 'z', 'x'), fill_value=-999.)
+                mk = np.zeros(lin.shape, bool)
+                mk[(0, 0, 0)] = True
+                mk[(-1, -1, -1)] = True
+                am[...] = np.ma.MaskedArray(lin + 1., mask=mk)
             v = f.createVariable('A', 'd', ('t', 'z', 'x'))
             v[...] = lin
             o = f.createVariable('other', 'd', tuple(d for d in ('t', 'z', 'x') if d != dname))
@@ -246,7 +254,7 @@ class Prop(core.Prop):
         if form == 'interpDimension':
             vs.extend(self.nd_branch(xs, nxs, scope))
         return result('viol' if vs else 'ok-apply', vs, st, 3,
-                      h64('a', src, tgt, form, case.get('cint'), case.get('big')) if (list(src) != list(tgt) or case.get('big')) else None,
+                      h64('a', src, tgt, form, case.get('cint'), case.get('big'), case.get('maskfirst')) if (list(src) != list(tgt) or case.get('big')) else None,
                       h64('ok') if not vs else None)
 
     def nd_branch(self, xs, nxs, scope):
@@ -350,6 +358,33 @@ class Prop(core.Prop):
             if not np.array_equal(r1, r2, equal_nan=True):
                 vs.append(viol('repeat-differs', ('interpSigma', 'vgtop'),
                                'second identical call differs: %s vs %s' % (r1.ravel()[:4], r2.ravel()[:4]), **scope))
+            # a profile that is linear in pressure is reproduced exactly at every target mid point inside the
+            # source range, whatever model top the target levels refer to (0 Pa included; the file's own top too)
+            P0 = 101325.
+            for vgtop in (None, 0., 4000., 5000., 10000.):
+                f4 = ioapi_u.build(rec)
+                top0 = float(f4.VGTOP)
+                top1 = top0 if vgtop is None else vgtop
+                vgs = np.asarray(f4.VGLVLS, 'd')
+                pmid = (vgs[:-1] + vgs[1:]) / 2 * (P0 - top0) + top0
+                prof = 2.0 + pmid / 1000.
+                f4.variables['O3'][...] = prof[None, :, None, None].astype('f')
+                tos = np.asarray(np.array(case['to'], 'f'), 'd')
+                pnew = (tos[:-1] + tos[1:]) / 2 * (P0 - top1) + top1
+                kw4 = {} if vgtop is None else {'vgtop': vgtop}
+                g4 = f4.interpSigma(np.array(case['to'], 'f'), interptype='linear', **kw4)
+                ntrans += 1
+                got = np.asarray(g4.variables['O3'][...], 'd')[0, :, 0, 0]
+                inside = (pnew >= pmid.min() * (1 + 1e-9)) & (pnew <= pmid.max() * (1 - 1e-9))
+                want = 2.0 + pnew / 1000.
+                if inside.any() and relerr(got[inside], want[inside]) > 1e-5:
+                    vs.append(viol('linear-in-pressure', ('interpSigma', 'linear', 'vgtop'),
+                                   'from %s (top %g) to %s (top %r): %s expected %s at pressures %s'
+                                   % (fr, top0, to, vgtop, got[inside], want[inside], pnew[inside]),
+                                   vgtop='none' if vgtop is None else ('zero' if vgtop == 0 else
+                                                                       'own' if vgtop == top0 else 'other'),
+                                   **scope))
+                    break
             if np.atleast_1d(g.VGLVLS).size != len(to) or len(g.dimensions['LAY']) != len(to) - 1:
                 vs.append(viol('levels', ('interpSigma', 'conserve'), 'VGLVLS %s LAY %d' % (
                     g.VGLVLS, len(g.dimensions['LAY'])), **scope))
